@@ -12,6 +12,7 @@ import c04lib as L  # noqa: E402
 import c04acc as A  # noqa: E402
 import bremlib  # noqa: E402
 import chipslib  # noqa: E402
+import relaxlib  # noqa: E402
 
 
 def run(ctx):
@@ -53,6 +54,7 @@ def run(ctx):
         bremlib.run_brem_energy(ctx, exe, quick)
     else:
         ctx.violation("model-broken", "C04/RunBrem.v no longer compiles", {"log": logb[-2000:]}, no_input=True)
+    relaxlib.run_relax(ctx, exe, quick)
     chipslib.run_chips(ctx, quick)
     if not proofs_ok:
         ctx.violation("proof-broken", "Properties_C04.v no longer checks", ctx.broken_proof, no_input=True)
